@@ -38,11 +38,14 @@ import (
 // restarting the WAL must have been captured completely, and base + kept segments applied in order
 // must equal the live database.
 //
-// Recorded defect class (verifFinding C06-failed-full-then-incremental-loses-frames, natively
-// reproduced): a full-snapshot checkpoint (nil writer) that fails after moving every frame leaves
-// frames in the database file that no kept segment holds (ghost "exposed"); when a writer then
-// restarts the WAL they are gone from the WAL too (ghost "lost") and an incremental snapshot taken
-// before a full one succeeds is wrong. Every other violation is still reported.
+// Protocol assumption (checked on store.fsmSnapshot by harness/C06b VerifC06bFailedFull, which also
+// carries the recorded defect class C06-failed-full-then-incremental-loses-frames): after a failed
+// full-snapshot checkpoint (nil writer) the store keeps asking for a full snapshot until one
+// succeeds. Such a failed checkpoint may leave frames in the database file that no kept segment holds
+// (ghost "exposed"); when a writer then restarts the WAL they are gone from the WAL too (ghost
+// "lost"), so an incremental snapshot taken before a full one succeeds would be wrong: write {0,1};
+// reader pins frame 2; Checkpoint(nil) fails with (1,2,2); reader stops; write {0} restarts the WAL;
+// Checkpoint(w) succeeds with page 0 only (reproduced on a real database while building this check).
 
 const (
 	verifC06NP      = 3 // pages (natively: one single-row table per page) a write transaction can touch
@@ -288,6 +291,7 @@ type verifC06H struct {
 	pendingReset bool
 	exposed      bool // a failed full-snapshot checkpoint back-filled frames that no kept segment holds; the next writer may restart the WAL
 	lost         bool // ... and a writer did: frames committed since the base are neither in the WAL nor in a kept segment
+	fullDue      bool // a full-snapshot attempt failed: the store asks for a full snapshot again (no incremental attempt meanwhile)
 
 	// bounded entries only: page-version abstraction
 	content bool
@@ -520,13 +524,8 @@ func (h *verifC06H) attemptInc() {
 		}
 		h.exposed = false // [captured, mxFrame) - whatever a failed full checkpoint back-filled of it - is in this segment
 		if h.content {
-			ok := h.contentOK()
-			if !ok && h.lost {
-				// recorded defect class: frames back-filled by a FAILED full-snapshot checkpoint were never
-				// captured, a writer restarted the WAL, and an incremental snapshot is taken nevertheless
-				verifFinding("C06-failed-full-then-incremental-loses-frames")
-			}
-			verifAssert("C06-base-plus-segments-is-live", ok)
+			verifAssert("C06-incremental-only-when-nothing-lost", !h.lost)
+			verifAssert("C06-base-plus-segments-is-live", h.contentOK())
 		}
 	} else {
 		// the caller cancels the staged segment; a non-retryable error makes the store exit
@@ -566,13 +565,14 @@ func (h *verifC06H) attemptFull() {
 		h.segs = nil
 		h.captured = 0
 		h.pendingReset = false
-		h.exposed, h.lost = false, false
+		h.exposed, h.lost, h.fullDue = false, false, false
 		if h.native {
 			verifC06N.TakeBase()
 		}
 	} else {
 		verifReach("full-failed")
 		verifAssert("C06-full-failure-reports-error", err != nil)
+		h.fullDue = true
 		if verifAnd(m.nb == m.mx, h.captured < m.mx) {
 			// every frame is now in the database file, some of them in no kept segment, and nothing
 			// stops the next writer from restarting the WAL: only a full snapshot can still be right
@@ -722,6 +722,7 @@ func (h *verifC06H) step(i int, kinds int, full bool) {
 		h.readerStop(r)
 	case 3:
 		verifAssume(!m.sizeZero)
+		verifAssume(!h.fullDue) // a full snapshot stays due until one succeeds (C06b)
 		h.attemptInc()
 	case 4:
 		verifAssume(full)
